@@ -187,7 +187,7 @@ func ruleR05c(h *H) {
 			if !ok || len(ret.Results) != 2 {
 				return
 			}
-			if c, isC := ret.Results[1].(*ssa.Const); !isC || !c.IsNil() {
+			if c, isC := ir.ReturnValues(ret)[1].(*ssa.Const); !isC || !c.IsNil() {
 				return
 			}
 			i++
@@ -238,7 +238,7 @@ func ruleR05c(h *H) {
 			}
 			i++
 			name := fmt.Sprintf("UpdateTerm return #%d in %s", i, ir.FuncName(fn))
-			v := ret.Results[0]
+			v := ir.ReturnValues(ret)[0]
 			for _, f := range flushes {
 				if v == f.Value() {
 					h.OK(rule, name, h.pos(in), "returns the result of KV.Flush")
@@ -509,7 +509,7 @@ func ruleR05e(h *H) {
 		if !ok {
 			return
 		}
-		okLeader = ir.DependsOn(ret.Results[0], func(v ssa.Value) bool {
+		okLeader = ir.DependsOn(ir.ReturnValues(ret)[0], func(v ssa.Value) bool {
 			ia, ok := v.(*ssa.IndexAddr)
 			return ok && ir.Canon(ia.X) == ssa.Value(cand)
 		})
